@@ -305,6 +305,11 @@ func mustMkDir(dir string) string {
 	return dir
 }
 
+func mustMkCleanDir(dir string) string {
+	panicIf(os.RemoveAll(dir))
+	return mustMkDir(dir)
+}
+
 func panicIf(err error) {
 	if err != nil {
 		panic(err)
